@@ -541,9 +541,9 @@ class SerializationSchemaBuilder(
             for field in fields
             if not field.is_aggregate
             for required in [
-                field.required
-                if is_typed_dict(get_origin_or_type(tp))
-                else not field.skippable(
+                # required TypedDict keys can be skipped too (e.g. with exclude_none)
+                (field.required or not is_typed_dict(get_origin_or_type(tp)))
+                and not field.skippable(
                     settings.serialization.exclude_defaults,
                     settings.serialization.exclude_none,
                 )
